@@ -467,3 +467,34 @@ M('c19-inputs-via-remove', 'C19', CIRC, "                self._gates[input_label
 M('c02-restore-setdefault', 'C02', CIRC, "            if gate_label not in self._gate_to_users:\n                self._gate_to_users[gate_label] = list_users\n            else:\n                self._gate_to_users[gate_label].extend(list_users)", "            self._gate_to_users.setdefault(gate_label, list_users)", 'C02.IDX')
 M('c01-private-map', 'C01', CIRC, "        assignment_dict: dict[gate.Label, GateState] = dict(assignment)\n        for _input in self._inputs:\n            assignment_dict.setdefault(_input, Undefined)\n\n        queue_", "        assignment_dict: dict[gate.Label, GateState] = assignment\n        for _input in self._inputs:\n            assignment_dict.setdefault(_input, Undefined)\n\n        queue_", 'C01.APPLY')
 M('c01-stack-eval-early', 'C01', CIRC, "            if cur_gate.label == queue_[-1]:\n                assignment_dict[cur_gate.label] = cur_gate.operator(", "            if True:\n                assignment_dict[cur_gate.label] = cur_gate.operator(", 'C01.APPLY')
+
+# ---------------------------------------------------------------- round 2 of sub-agent seeds: own variants of the mechanisms
+DIVF = 'cirbo/synthesis/generation/arithmetics/div_mod.py'
+M('r2-c02-remove-user-all', 'C02', CIRC, "            self._gate_to_users[gate_label].remove(user)", "            self._gate_to_users[gate_label] = [u for u in self._gate_to_users[gate_label] if u != user]", 'C02.IDX')
+M('r2-c14-remove-user-all', 'C14', CIRC, "            self._gate_to_users[gate_label].remove(user)", "            self._gate_to_users[gate_label] = [u for u in self._gate_to_users[gate_label] if u != user]", 'C14.IDX')
+M('r2-c03-mdg-last-wins', 'C18', MDG, "            _signature_to_duplicate.setdefault(_sig, _gate.label)", "            _signature_to_duplicate[_sig] = _gate.label", 'C18.FOLD')
+M('r2-c03-meg-keep-per-gate', 'C18', MEG, "        keep = _Keep()\n        for gate_to_replace in group:\n            _old_to_new_gate[gate_to_replace] = keep", "        for gate_to_replace in group:\n            keep = _Keep()\n            _old_to_new_gate[gate_to_replace] = keep", 'C18.FOLD')
+M('r2-c03-meg-outputs-first', 'C03', MEG, "    # reconstruct circuit\n    more_itertools.consume(", "    _resolved = list(map(_get_gate_new_name, circuit.outputs))\n    # reconstruct circuit\n    more_itertools.consume(", 'C03.FOLD')
+M('r2-c03-rrg-const-no-operands', 'C18', RRG, "                operands=gate.operands,", "                operands=() if gate.gate_type.name.startswith('ALWAYS') else gate.operands,", 'C18.FOLD')
+M('r2-c03-cleanup-removal', 'C03', CLEAN, "        _strategies += [MergeEquivalentGates()]", "        _strategies += [RemoveRedundantGates(allow_inputs_removal=True), MergeEquivalentGates()]", 'C03.IFACE')
+M('r2-c05-sorted-lits', 'C05', TSE, "        lits = [process_gate(lit) for lit in operands]", "        lits = sorted(process_gate(lit) for lit in operands)", 'C05.')
+M('r2-c06-dec-loops-swapped', 'C06', SEARCH, "        for h in self._outputs:\n            for gate in self._gates:\n                if self._output_gate_variable(h, gate) in model:", "        for gate in self._gates:\n            for h in self._outputs:\n                if self._output_gate_variable(h, gate) in model:", 'C06.DEC')
+M('r2-c04-dec-loops-swapped', 'C04', SEARCH, "        for h in self._outputs:\n            for gate in self._gates:\n                if self._output_gate_variable(h, gate) in model:", "        for gate in self._gates:\n            for h in self._outputs:\n                if self._output_gate_variable(h, gate) in model:", 'C06.DEC')
+M('r2-c06-exactly-one-empty', 'C06', SEARCH, "        self._cnf.append(literals)\n        self._cnf.extend([[-a, -b]", "        if literals:\n            self._cnf.append(literals)\n        self._cnf.extend([[-a, -b]", 'C06.ENC')
+M('r2-c04-size-operands', 'C04', SUBC, "            if oper_type != 'NOT':\n                circuit_size += 1", "            circuit_size += max(len(operands) - 1, 0)", 'C04.CONE')
+M('r2-c04-dc-lsb-first', 'C04', SUBC, "            assignment: str = ''.join(i)\n", "            assignment: str = ''.join(reversed(i))\n", 'C04.CONE')
+M('r2-c04-outputs-only-marked', 'C04', SUBC, "            is_output: bool = node in outputs_set\n            if not is_output:", "            is_output: bool = node in outputs_set\n            if is_output:", 'C04.CONE')
+M('r2-c07-adder-last-bit', 'C07', SUMF, "        if i < m:\n            inp.append(input_labels_b[i])\n        d[i] = list(add_sum_n_bits(circuit, inp))", "        if i < m - 1:\n            inp.append(input_labels_b[i])\n        d[i] = list(add_sum_n_bits(circuit, inp))", 'C07.FOLD')
+M('r2-c07-sortedset', 'C07', SUMF, "    single = SortedList(input_labels_with_pow)  # sorted list of single", "    single = SortedList(set(input_labels_with_pow))  # sorted list of single", 'C07.ARGS')
+M('r2-c08-alter-shift', 'C08', MULF, "        res = add_sum_two_numbers_with_shift(circuit, i, res, c[i])", "        res = add_sum_two_numbers_with_shift(circuit, i - 1, res, c[i])", 'C08.FOLD')
+M('r2-c09-divmod-no-mod-mask', 'C09', DIVF, "    for i in range(n):\n        now[i] = add_gate_from_tt(circuit, now[i], pref[-1], \"0001\")\n", "", 'C09.FOLD')
+M('r2-c09-compare-flag-inverted', 'C09', SUBF, "    return reverse_if_big_endian(res, big_endian), bal[n - 1]", "    return reverse_if_big_endian(res, big_endian), add_gate_from_tt(circuit, bal[n - 1], bal[n - 1], '1000')", 'C09.FOLD')
+M('r2-c12-significant-skip-unused', 'C12', CIRC, "            for input_index in range(self.input_size)\n            if self.is_dependent_on_input_at(output_index, input_index)", "            for input_index in range(self.input_size)\n            if self.get_gate_users(self._inputs[input_index]) and self.is_dependent_on_input_at(output_index, input_index)", 'C12.FOLD')
+M('r2-c13-xor-default-connectors', 'C13', MIT, "    miter.connect_circuit(\n        pairwise_xor,\n        miter.get_block(left_name).outputs + miter.get_block(right_name).outputs,\n        pairwise_xor.inputs,\n        name=PAIRWISE_XOR_NAME,\n    )", "    miter.extend_circuit(pairwise_xor, name=PAIRWISE_XOR_NAME)", 'C13.WIRE')
+M('r2-c15-early-exit', 'C15', CIRC, "        assignment_dict: dict[gate.Label, GateState] = dict(assignment)\n        for _input in self._inputs:\n            assignment_dict.setdefault(_input, Undefined)\n\n        queue_", "        if not assignment:\n            return dict.fromkeys(self._gates, Undefined)\n        assignment_dict: dict[gate.Label, GateState] = dict(assignment)\n        for _input in self._inputs:\n            assignment_dict.setdefault(_input, Undefined)\n\n        queue_", 'C01.APPLY')
+M('r2-c15-twin-structural-exit', 'C15', CIRC, "        assignment_dict: dict[gate.Label, GateState] = dict(assignment)\n        for _input in self._inputs:\n            assignment_dict.setdefault(_input, Undefined)\n\n        queue_", "        if not self._gates:\n            return dict()\n        assignment_dict: dict[gate.Label, GateState] = dict(assignment)\n        for _input in self._inputs:\n            assignment_dict.setdefault(_input, Undefined)\n\n        queue_", None)
+M('r2-c16-sorted-ids-all-but-gt-lt', 'C16', ENCF, "    for operand_label in gate_.operands:\n        bit_writer.write_number(gate_identifiers[operand_label], word_size)", "    _ids = [gate_identifiers[o] for o in gate_.operands]\n    if gate_.gate_type not in (gate.GT, gate.LT):\n        _ids.sort()\n    for _id in _ids:\n        bit_writer.write_number(_id, word_size)", 'C16.GATE-RT')
+M('r2-c16-twin-sorted-ids-symmetric', 'C16', ENCF, "    for operand_label in gate_.operands:\n        bit_writer.write_number(gate_identifiers[operand_label], word_size)", "    _ids = [gate_identifiers[o] for o in gate_.operands]\n    if gate_.gate_type.is_symmetric:\n        _ids.sort()\n    for _id in _ids:\n        bit_writer.write_number(_id, word_size)", None)
+M('r2-c17-decoder-raw-store', 'C17', ENCF, "    circuit.add_gate(gate)\n", "    circuit._gates[label] = gate\n", 'C17.KEY')
+M('r2-c19-block-rename-first-only', 'C19', CIRC, "        for i, output_label in enumerate(self.outputs):\n            if output_label == old_label:\n                self.outputs[i] = new_label\n\n        return self", "        if old_label in self.outputs:\n            self.outputs[self.outputs.index(old_label)] = new_label\n\n        return self", 'C19.RENAME')
+M('r2-c03-twin-cleanup-explicit-default', 'C18', CLEAN, "        RemoveRedundantGates(),\n        MergeUnaryOperators(),", "        RemoveRedundantGates(allow_inputs_removal=False),\n        MergeUnaryOperators(),", None)
